@@ -1061,6 +1061,16 @@ Qed.
 Lemma query_char_printable c : query_char c = true -> printable c = true.
 Proof. unfold query_char, printable. intro H. apply andb_true_iff in H as [H _]. exact H. Qed.
 
+Lemma printable_last_seg dirs x :
+  forallb printable (join [c_sl] (dirs ++ [x])) = true -> forallb printable x = true.
+Proof.
+  induction dirs as [|d ds0 IH]; intro H; [exact H|].
+  change ((d :: ds0) ++ [x]) with (d :: (ds0 ++ [x])) in H.
+  rewrite join_cons_ne in H by (destruct ds0; discriminate).
+  rewrite !forallb_app in H. apply andb_true_iff in H as [_ H]. apply andb_true_iff in H as [_ H].
+  now apply IH.
+Qed.
+
 Section Concrete.
   Variable sch host : str.
   Variable hc : N. Variable ht : str.
@@ -1217,14 +1227,20 @@ Section Concrete.
   (* ---------- every link form, chosen per answer ---------- *)
 
   Hypothesis Hhostp : forallb printable host = true.
-  Variable fm : nat -> nat.   (* 0: </path?q>  1: <?q>  2: <http://host/path?q>  3: <//host/path?q> *)
+  Variable fm : nat -> nat.   (* 0: </path?q>  1: <?q>  2: <http://host/path?q>  3: <//host/path?q>  4..: <./last?q> *)
+  (* the last segment of the endpoint path, for the path-relative form *)
+  Variable dirs0 : list str.
+  Variable lastB0 : str.
+  Hypothesis Hsegs0 : segs0 = dirs0 ++ [lastB0].
+  Hypothesis Hlastc : forallb path_char lastB0 = true.
 
   Definition form_text (f : nat) (P Q : str) : str :=
     match f with
     | O => P ++ c_qm :: Q
     | S O => c_qm :: Q
     | S (S O) => b "http://" ++ host ++ P ++ c_qm :: Q
-    | _ => c_sl :: c_sl :: host ++ P ++ c_qm :: Q
+    | S (S (S O)) => c_sl :: c_sl :: host ++ P ++ c_qm :: Q
+    | _ => c_dot :: c_sl :: lastB0 ++ c_qm :: Q
     end.
 
   Definition render_f (i : nat) (base tgt : url) : str :=
@@ -1238,7 +1254,7 @@ Section Concrete.
     assert (GH : contains c_gt host = false) by (apply (contains_forallb c_gt host_char); [reflexivity|exact Hhostc]).
     assert (T : contains c_gt (P0 ++ c_qm :: Q) = false).
     { rewrite contains_app, GP. cbn [contains existsb]. change (c_qm =? c_gt) with false. exact GQ. }
-    destruct f as [|[|[|f]]]; unfold form_text.
+    destruct f as [|[|[|[|f]]]]; unfold form_text.
     - exact T.
     - cbn [contains existsb]. change (c_qm =? c_gt) with false. exact GQ.
     - rewrite contains_app. change (contains c_gt (b "http://")) with false.
@@ -1246,6 +1262,10 @@ Section Concrete.
     - cbn [contains existsb]. change (c_sl =? c_gt) with false. cbn [orb].
       change (existsb (fun d => d =? c_gt) (host ++ P0 ++ c_qm :: Q)) with (contains c_gt (host ++ P0 ++ c_qm :: Q)).
       rewrite contains_app, GH. exact T.
+    - cbn [contains existsb]. change (c_dot =? c_gt) with false. change (c_sl =? c_gt) with false. cbn [orb].
+      change (existsb (fun d => d =? c_gt) (lastB0 ++ c_qm :: Q)) with (contains c_gt (lastB0 ++ c_qm :: Q)).
+      rewrite contains_app. rewrite (contains_forallb c_gt path_char lastB0 eq_refl Hlastc).
+      cbn [contains existsb]. change (c_qm =? c_gt) with false. exact GQ.
   Qed.
 
   Lemma form_resolves f base Q :
@@ -1256,7 +1276,20 @@ Section Concrete.
     assert (PQ : forallb printable Q = true) by (apply (forallb_impl query_char printable _ query_char_printable); exact HQ).
     assert (LPQ : forallb printable (P0 ++ c_qm :: Q) = true).
     { rewrite forallb_app, HP0p. cbn [forallb]. change (printable c_qm) with true. exact PQ. }
-    destruct f as [|[|[|f]]]; unfold form_text.
+    destruct f as [|[|[|[|f]]]]; unfold form_text.
+    5:{ (* <./last?q>: the directory of the endpoint path, then its last segment again *)
+        destruct HP0 as (Hne0 & HF0 & EP0). rewrite Hsegs0 in HF0, EP0.
+        apply Forall_app in HF0 as [Hd0 Hl0]. pose proof (Forall_inv Hl0) as Hlb.
+        exists sch, host.
+        rewrite (resolve_dot_relative (mkS sch host (u_path base) []) dirs0 lastB0 lastB0 Q); auto.
+        - now rewrite <- EP0.
+        - cbn [s_path]. now rewrite Eb.
+        - unfold link_ok. cbn [forallb]. change (printable c_dot) with true. change (printable c_sl) with true. cbn [andb].
+          rewrite forallb_app. cbn [forallb]. change (printable c_qm) with true. rewrite PQ.
+          assert (PL : forallb printable lastB0 = true).
+          { rewrite EP0 in HP0p. cbn [forallb] in HP0p. apply andb_true_iff in HP0p as [_ HJ].
+            exact (printable_last_seg dirs0 lastB0 HJ). }
+          now rewrite PL. }
     - eexists. eexists. apply (resolve_abs_path _ P0 segs0 Q); auto.
     - exists sch, host. rewrite (resolve_query_only (mkS sch host (u_path base) []) segs0 Q).
       + cbn [s_scheme s_host s_path]. now rewrite Eb.
